@@ -74,3 +74,10 @@ chk("C16", "exploration", "bounded-exhaustive operation sequences + Python list 
     "find_bykid results, error_any, set error) is dumped and compared with an ordered-list model; AddressSanitizer catches "
     "use of freed items, LeakSanitizer leaks at exit.",
     "Trusted: unique ids carried in key bytes/kids identify items; sanitizers see libjwt code only.", "DESIGN.md 3/C16")
+chk("C10", "exploration", "history replay against a Python builder model (own base64/JSON/HMAC decoding) with a harness clock, under ASan/UBSan",
+    "1.2e4 (quick) / 4e5 (thorough) random histories of header/claim set/del, enable_iat, time_offset, setkey, setcb "
+    "(callback scripts editing the per-token jwt_t, failing, or selecting a public key) interleaved with generate at controlled "
+    "clock values on both providers; each returned token is decoded by Python (canonical unpadded base64url, JSON objects), "
+    "header and payload are compared type-strictly with the model, builder snapshots before/after generate must be equal and "
+    "equal to the model, signatures are re-verified (OpenSSL reference, Python hmac).",
+    "Trusted: Python base64/json/hmac; OpenSSL reference verifier in the driver.", "DESIGN.md 3/C10")
